@@ -60,6 +60,14 @@ func runC16(p *Prog, r *Report) {
 	c16Lockset(p, r)
 	c16SingleFlight(p, r)
 	c16Patches(p, r)
+	// schedule independence of the collector: which follow-up attempts are launched for a received
+	// result must not depend on the results received before it — the decisions that end the handling
+	// of a received result are the audited ones (table shared with C12)
+	if cf := p.Func("guidedremediation/internal/strategy/common", "ComputePatches"); cf != nil {
+		frozenSkipsDepth = 12
+		frozenSkips(p, r, "D4-fanout", "common.ComputePatches:collector", cf, isAppendOf("Patch"), c12Sanctioned[fnKey(cf)], "COLLECTOR", "the collector can drop a received result (and the follow-up attempts it would launch) depending on what arrived earlier: the returned patch list then depends on the order in which the goroutines finish")
+		frozenSkipsDepth = 10
+	}
 }
 
 // ---- must-hold lockset ----
